@@ -352,3 +352,28 @@ Proof.
     eexists _, _. split; [reflexivity|]. split; [apply qfree_expand; exact QU|]. left. split; reflexivity.
   - intros; eapply J5_step; eauto.
 Qed.
+
+(* ---------------------------------------------------------------- the statements of Properties_C05 *)
+Theorem quit_ends_loop : forall sh scr prefix later progs s,
+  qwake_ok sh = true ->
+  reach sh scr (init prefix later progs) s -> quit (sg s) = true ->
+  quiescent s = false /\ (pc s = LPoll -> 0 < evfd (sg s) \/ midquit s = true).
+Proof.
+  intros sh scr prefix later progs s QW R Q.
+  pose proof (J3_reach _ _ _ _ _ _ QW (reach_reach_t _ _ _ _ R)) as J.
+  split; [apply J3_not_quiescent; assumption|]. intros P. apply J; assumption.
+Qed.
+
+Theorem quit_not_lost : forall sh scr prefix later progs s,
+  resets_on_entry sh = false -> qwake_ok sh = true ->
+  reach sh scr (init prefix later progs) s -> quit_since_ret (log (sg s)) = true ->
+  quit (sg s) = true /\ quiescent s = false /\
+  (pc s = LTest -> exists s', step sh scr s TLoop = Some s' /\ pc s' = LExit).
+Proof.
+  intros sh scr prefix later progs s RE QW R QS.
+  pose proof (J2_reach _ _ _ _ _ _ RE (reach_reach_t _ _ _ _ R) QS) as Q.
+  split; [exact Q|]. split.
+  - apply J3_not_quiescent; [|exact Q]. apply (J3_reach _ _ _ _ _ _ QW (reach_reach_t _ _ _ _ R)).
+  - intros P. destruct s as [g p lc ln fc]. cbn in *. subst p. unfold step. cbn. rewrite Q.
+    destruct lc; eexists; split; reflexivity.
+Qed.
